@@ -13,8 +13,8 @@ from concurrent.futures import ThreadPoolExecutor
 
 from .common import Oracle, Suite, errname, merge
 
-GEN_UNITS = ["Backend", "FormatDigests", "CryptoDigest"]
-LEAN_TARGETS = ["PasslibVerif.Props.C03", "PasslibVerif.Props.C03Finalize"]
+GEN_UNITS = ["Backend", "FormatDigests", "CryptoDigest", "OsCrypt"]
+LEAN_TARGETS = ["PasslibVerif.Props.C03", "PasslibVerif.Props.C03Finalize", "PasslibVerif.Props.C03OsCrypt"]
 ASSUMPTIONS = [
     "which loaders succeed on this machine (os_crypt support per format, the bcrypt package, hashlib.scrypt, $PASSLIB_BUILTIN_BCRYPT) is a parameter of the model, probed in fresh processes",
     "that two different back ends compute the same digest is established by C02/C11 theorems for the pure-Python code and by differential runs for the external code (crypt(), bcrypt package, hashlib.scrypt)",
@@ -201,7 +201,13 @@ def correspond(ctx):
 
     s_fin = Suite(ctx, "bcrypt-finalize-model")
     c03_finalize.model_suite(ctx, s_fin)
-    return merge(s_hist, o_pair, o_order, s_fin)
+    # the os_crypt back ends of the crypt-family hashers (availability probe + checksum routine over crypt() as a recorded parameter):
+    # Model.OsCryptBackend (suite `ocp`)
+    from . import c03_oscrypt
+
+    s_ocp = Suite(ctx, "oscrypt-backend-model")
+    c03_oscrypt.model_suite(ctx, s_ocp)
+    return merge(s_hist, o_pair, o_order, s_fin, s_ocp)
 
 
 def order_oracle(ctx, o, first_only=False):
@@ -366,6 +372,24 @@ def search(ctx, broken, seeds):
 def replay(ctx, inp):
     warnings.simplefilter("ignore")
     op = inp.get("op")
+    if op == "oscrypt-short-answer":
+        # a crypt() that answers a string too short to hold a checksum: the os_crypt routine must refuse it with the documented backend error
+        import passlib.utils as U
+        from passlib import exc, registry
+
+        h = registry.get_crypt_handler(inp["hasher"])
+        real = U._crypt
+        U._crypt = lambda s_, h_: inp["answer"]
+        try:
+            try:
+                h(salt="test", rounds=1000, use_defaults=True)._calc_checksum_os_crypt("test")
+                return {"fails": True, "observed": "a checksum was sliced out of " + repr(inp["answer"])}
+            except exc.InternalBackendError as e:
+                return {"fails": False, "observed": "InternalBackendError: " + str(e)[:80]}
+            except Exception as e:  # noqa: BLE001
+                return {"fails": True, "observed": type(e).__name__ + ": " + str(e)[:80]}
+        finally:
+            U._crypt = real
     if op == "fresh-process-first-call":
         cls = inp["hasher"]
         secret = b"password"
